@@ -44,6 +44,11 @@ type simWorld struct {
 	mode       edsv1.ExtendedDaemonSetSpecStrategyCanaryValidationMode
 	seq        int
 	totalWrites int
+	// faults by global write index (scenario_faults): index -> kind
+	globalFaults map[int]string
+	faultFired   bool
+	// dead: the controller process has stopped; nothing it still tries to write reaches the API
+	dead bool
 }
 
 type swapClient struct{ client.Client }
@@ -58,7 +63,12 @@ func (w *simWorld) build(objs []client.Object) {
 	fault := func() string {
 		k := w.writeCount
 		w.writeCount++
+		g := w.totalWrites
 		w.totalWrites++
+		if f, ok := w.globalFaults[g]; ok {
+			w.faultFired = true
+			return f
+		}
 		if w.faults == nil {
 			return ""
 		}
@@ -80,20 +90,30 @@ func (w *simWorld) build(objs []client.Object) {
 		case "status":
 			w.wl.Status = append(w.wl.Status, cp)
 		}
+		if w.dead {
+			w.wl.mu.Unlock()
+			return fmt.Errorf("injected: process stopped")
+		}
 		f := fault()
+		if f == "crash" {
+			// the process stops immediately before this write: neither it nor any later write of this
+			// reconcile is applied; the caller replaces the controller instance afterwards
+			w.dead = true
+			w.wl.mu.Unlock()
+			return fmt.Errorf("injected: process stopped")
+		}
 		w.wl.mu.Unlock()
-		switch f {
-		case "reject":
+		if f == "reject" {
 			return fmt.Errorf("injected: rejected")
-		case "crash":
-			panic(crashSignal{})
 		}
 		err := apply()
 		if f == "lost" {
 			return fmt.Errorf("injected: applied, answer lost")
 		}
 		if f == "crash-after" {
-			panic(crashSignal{})
+			w.wl.mu.Lock()
+			w.dead = true
+			w.wl.mu.Unlock()
 		}
 		return err
 	}
@@ -148,10 +168,10 @@ func newSimWorld(objs []client.Object, aff bool, mode edsv1.ExtendedDaemonSetSpe
 
 // quiet runs f without recording its writes and without faults (harness-side actions).
 func (w *simWorld) quiet(f func()) {
-	savedWl, savedF, savedC := w.wl, w.faults, w.writeCount
-	w.wl, w.faults = &writeLog{}, nil
+	savedWl, savedF, savedC, savedT, savedG := w.wl, w.faults, w.writeCount, w.totalWrites, w.globalFaults
+	w.wl, w.faults, w.globalFaults = &writeLog{}, nil, nil
 	f()
-	w.wl, w.faults, w.writeCount = savedWl, savedF, savedC
+	w.wl, w.faults, w.writeCount, w.totalWrites, w.globalFaults = savedWl, savedF, savedC, savedT, savedG
 }
 
 func (w *simWorld) allObjects() []client.Object {
